@@ -744,9 +744,46 @@ func TestC17_PKCS12(t *testing.T) {
 		var priv interface{}
 		var cert *gx.Certificate
 		var wantD, wantX, wantY *big.Int
+		dLen := 32
+		keyClass := "p12_key:sm2"
 		if useP256 {
 			priv, cert = p256Key, p256Cert
 			wantD, wantX, wantY = p256Key.D, p256Key.X, p256Key.Y
+			keyClass = "p12_key:p256_fixed"
+		} else if gen.OneIn(t, "stdkey", 3) {
+			// the other key types Encode takes: RSA, and ECDSA on each NIST curve with a generated scalar - full width
+			// (top byte set), ordinary, or with leading zero bytes
+			cert = p256Cert // (the container does not tie the key to the certificate)
+			if kind := rapid.SampledFrom([]string{"rsa", "p224", "p256", "p384", "p521", "p521"}).Draw(t, "stdkind"); kind == "rsa" {
+				rk := rsaKeys[rapid.IntRange(0, 2).Draw(t, "rsai")]
+				priv, wantD, wantX, wantY = rk, rk.D, rk.N, big.NewInt(int64(rk.E))
+				dLen = len(rk.D.Bytes())
+				keyClass = "p12_key:rsa"
+			} else {
+				curve := map[string]elliptic.Curve{"p224": elliptic.P224(), "p256": elliptic.P256(), "p384": elliptic.P384(), "p521": elliptic.P521()}[kind]
+				dLen = (curve.Params().N.BitLen() + 7) / 8
+				raw := gen.BytesN(dLen).Draw(t, "ecscalar")
+				shape := rapid.SampledFrom([]string{"full", "any", "lz"}).Draw(t, "ecshape")
+				switch shape {
+				case "full":
+					raw[0] |= 0x80
+				case "lz":
+					raw[0] = 0
+				}
+				d := new(big.Int).SetBytes(raw)
+				if kind == "p521" {
+					d.SetBit(d, 521, 0).SetBit(d, 522, 0).SetBit(d, 523, 0).SetBit(d, 524, 0).SetBit(d, 525, 0).SetBit(d, 526, 0).SetBit(d, 527, 0)
+					if shape == "full" {
+						d.SetBit(d, 520, 1)
+					}
+				}
+				d.Mod(d, new(big.Int).Sub(curve.Params().N, big.NewInt(1))).Add(d, big.NewInt(1))
+				ek := &ecdsa.PrivateKey{D: d}
+				ek.Curve = curve
+				ek.X, ek.Y = curve.ScalarBaseMult(d.Bytes())
+				priv, wantD, wantX, wantY = ek, d, ek.X, ek.Y
+				keyClass = "p12_key:" + kind + "_" + shape
+			}
 		} else {
 			k := gen.KeyPair(hx.Root()).Draw(t, "key")
 			priv, cert = sm2x.Priv(k), sm2Cert(t, k, "p12 owner", 77)
@@ -765,9 +802,21 @@ func TestC17_PKCS12(t *testing.T) {
 			t.Fatalf("pkcs12.Encode(password %q): %v", pwd, err)
 		}
 		check := func(what string, k interface{}, certs [][]byte) {
+			if rk, isRSA := k.(*rsa.PrivateKey); isRSA {
+				if _, wantRSA := priv.(*rsa.PrivateKey); !wantRSA || rk.D.Cmp(wantD) != 0 || rk.N.Cmp(wantX) != 0 || rk.E != int(wantY.Int64()) {
+					t.Fatalf("%s returned a DIFFERENT (RSA) private key", what)
+				}
+				if len(certs) == 0 || !bytes.Equal(certs[0], cert.Raw) {
+					t.Fatalf("%s returned a different certificate", what)
+				}
+				return
+			}
 			ek, ok := k.(*ecdsa.PrivateKey)
 			if !ok {
 				t.Fatalf("%s returned key of type %T", what, k)
+			}
+			if ek.Curve.Params().Name != priv.(interface{ Params() *elliptic.CurveParams }).Params().Name {
+				t.Fatalf("%s returned a key on curve %s, stored one on %s", what, ek.Curve.Params().Name, priv.(interface{ Params() *elliptic.CurveParams }).Params().Name)
 			}
 			if ek.D.Cmp(wantD) != 0 || ek.X.Cmp(wantX) != 0 || ek.Y.Cmp(wantY) != 0 {
 				t.Fatalf("%s returned a DIFFERENT private key", what)
@@ -810,7 +859,7 @@ func TestC17_PKCS12(t *testing.T) {
 		}
 		sawKey, sawCert := false, false
 		for _, b := range blocks {
-			if b.Type == "PRIVATE KEY" && bytes.Contains(b.Bytes, rsm2.Pad32(wantD)) {
+			if b.Type == "PRIVATE KEY" && bytes.Contains(b.Bytes, wantD.FillBytes(make([]byte, dLen))) {
 				sawKey = true
 			}
 			if b.Type == "CERTIFICATE" && bytes.Equal(b.Bytes, cert.Raw) {
@@ -820,7 +869,7 @@ func TestC17_PKCS12(t *testing.T) {
 		if !sawKey || !sawCert {
 			t.Fatalf("ToPEM blocks do not contain the original key (%v) and certificate (%v)", sawKey, sawCert)
 		}
-		cl := []string{}
+		cl := []string{keyClass}
 		if nca > 0 {
 			cl = append(cl, "p12_cacerts")
 		}
